@@ -17,7 +17,9 @@ CONFIG = {
     ],
     "modelled": ["cache.SetUMoney", "cache.DeUMoney", "cache.MoneyOf", "cache.passwdUpdateMoney", "ptttype.UID.ToUIDInStore",
                  "ptt.passwdSyncQuery (through ptt.GetUser)", "ptt.passwdSyncUpdate (through ptt.SetUserPerm)",
-                 "cmbbs.PasswdQuery", "cmbbs.PasswdUpdate", "ptt.SetupNewUser (tail after cache.SetUserID)", "encoding/binary bool normalisation of UserecRaw"],
+                 "cmbbs.PasswdQuery", "cmbbs.PasswdUpdate", "ptt.SetupNewUser (tail after cache.SetUserID)",
+                 "cache.LoadUHash / fillUHash / userecRawAddToUHash (Userid, Money, invalid-id counter; fresh and on-the-fly; the hash chains are C04's)",
+                 "ptttype.USE_COOLDOWN (site configuration, driven in both values)", "UserID_t.IsValid, types.Cstrcmp on user ids", "encoding/binary bool normalisation of UserecRaw"],
     "assumptions": [
         "the theorems are stated for a .PASSWDS of exactly MAX_USERS records and an SHM money array of MAX_USERS entries (other files are compared with the model, not judged)",
         "no-overflow hypothesis of the property: amounts are int32, a debit is not -2^31 (its negation does not exist in int32: DeUMoney then stores balance-2^31) and the stored sum is an int32",
@@ -25,6 +27,8 @@ CONFIG = {
         "a caller's UserecRaw is modelled by its 512-byte serialisation",
         "the proofs are about SEQUENTIAL histories; the concurrent pass is a stress observation, not a proof",
         "registration: only the money/record tail of ptt.SetupNewUser (SetUMoney, passwdSyncUpdate, in the order regenerated from the source) is modelled; id lookup, slot search and locking are C03/C15",
+        "the loader theorems are for a .PASSWDS of exactly MAX_USERS records (short, torn, long and missing files are compared with the model, not judged); MAX_USERS <= PRE_ALLOCATED_USERS (checked over the regenerated constants), so the invalid-id skip of the loader is unreachable",
+        "an on-the-fly reload refills only slots whose owner changed: a slot whose Money alone was edited on disk keeps its SHM value (as in pttbbs); recorded and compared, not judged as a defect",
         "single writer: concurrent SetUMoney/DeUMoney on one slot are outside this property",
         "MoneyOf on an invalid slot panics (index out of range); it writes nothing and is recorded, not judged",
     ],
